@@ -128,6 +128,7 @@ def progStep (st : ProgState) (ts : List String) : ProgState × List String :=
   | ["sender", "start", _] => ({ st with oracleOnly := true }, [])
   | ["threads", _, _] => (st, [])
   | ["prehost", _] => (st, [])
+  | ["direct", _] => (st, [])
   | "p" :: rest =>
     match pPOp rest with
     | some (op, []) => ({ st with ops := op :: st.ops }, [])
